@@ -30,8 +30,8 @@ type Env struct {
 }
 
 var stdInitAllow = []string{
-	"io", "bytes", "sort", "unicode/utf8", "strconv", "math", "encoding/binary",
-	"go.uber.org/atomic", "strings", "unicode", "context",
+	"io", "bytes", "sort", "unicode/utf8", "encoding/binary",
+	"go.uber.org/atomic",
 }
 
 func (e *Env) initAllowed(p *ssa.Package) bool {
